@@ -380,6 +380,59 @@ theorem rank_is_position (cfg : Cfg) (words : List Word) (targets : List Str) (l
         simpa using h2
       · simp at hrun
 
+/-! with the proposed repair of F09-2BR (findings/C09.patch, `reExpand`) the restriction to words
+    with one bracket pair disappears -/
+
+theorem firstNaming_reExpand (words : List Word) (h : Str) :
+    firstNaming (words.map reExpand) h = firstNaming words h := by
+  unfold firstNaming
+  induction words with
+  | nil => rfl
+  | cons w ws ih =>
+    have ha : annotated (reExpand w) = annotated w := rfl
+    have hf : (reExpand w).full = w.full := rfl
+    have ht : (reExpand w).text = w.text := rfl
+    by_cases hc : (annotated w && w.full.contains h) = true
+    · simp only [List.map_cons, List.find?_cons, ha, hf, hc, ht]
+    · have hc' : (annotated w && w.full.contains h) = false := by simpa using hc
+      simp only [List.map_cons, List.find?_cons, ha, hf, hc']
+      exact ih
+
+/-- first registration wins, for EVERY word (two-bracket words included), once the registered names
+    are expanded like the target list -/
+theorem first_word_wins_reexpand (cfg : Cfg) (words : List Word) (reg : List Entry) (h : Str)
+    (hrun : processWords cfg (words.map reExpand) [] = some reg) :
+    (lookup reg h).map (fun e => (e.rtype, e.user)) =
+      (firstNaming words h).map (fun p => (p.rtype, p.user)) := by
+  rw [← firstNaming_reExpand]
+  apply first_word_wins cfg _ reg h hrun
+  intro w hw
+  simp only [List.mem_map] at hw
+  obtain ⟨w0, _, rfl⟩ := hw
+  rfl
+
+/-- ... and every connection of a run is the one the specification demands, without restriction -/
+theorem run_eq_spec_reexpand (cfg : Cfg) (words : List Word) (targets : List Str) (ls : List Line)
+    (hrun : runRe cfg words targets = .lines ls) :
+    ls = expectedLines cfg words targets := by
+  have h1 := run_eq_spec cfg (words.map reExpand) targets ls hrun (by
+    intro w hw
+    simp only [List.mem_map] at hw
+    obtain ⟨w0, _, rfl⟩ := hw
+    rfl)
+  rw [h1]
+  unfold expectedLines hostInfo
+  simp only [firstNaming_reExpand]
+
+/-- the witness below is gone: the two-bracket word is honoured -/
+theorem f09_2br_repaired :
+    let w : Word := ⟨"u@foo[1-2]-[0-1]".toList,
+                     ["foo1-[0-1]".toList, "foo2-[0-1]".toList],
+                     ["foo1-0".toList, "foo1-1".toList, "foo2-0".toList, "foo2-1".toList]⟩
+    let cfg : Cfg := ⟨["exec".toList], ["exec".toList], none, none, none, "me".toList⟩
+    runRe cfg [w] w.full = .lines (expectedLines cfg [w] w.full) := by
+  decide
+
 /-- F09-2BR witness: a two-bracket word is registered under its first-level names, so the final
     hosts are not found and fall back to the defaults although the word names them
     (`-w u@foo[1-2]-[0-1]`: foo1-0 is contacted as the local user) -/
